@@ -838,13 +838,26 @@ class ElemEngine:
                                 add(av)
                 elif p in self.pdb.bodies:
                     # in-crate callee mutating a &mut parameter that views obj
-                    for i, x in enumerate(c.args):
-                        if same_obj(x) and i < len(c.argtys) and c.argtys[i].startswith('&mut'):
-                            g = self.prog.func(p)
+                    cargs, ctys, ups = list(c.args), list(c.argtys), {}
+                    g = self.prog.func(p)
+                    if g.body.kind == 'closure' and len(cargs) == 2 and tag(cargs[1]) == 'agg' and cargs[1][1] == 'tuple':
+                        # direct call of a local closure: `f(row, k)` is {closure}(&f, (row, k)); the body sees the tuple untupled
+                        _, ups = self.closure_of(env, cargs[0])
+                        comps = list(cargs[1][3])
+                        tt = ctys[1].strip() if len(ctys) > 1 else ''
+                        tys = _split_tuple_ty(tt)
+                        if len(tys) != len(comps):
+                            if any(same_obj(y) for y in comps):
+                                add(top('closure call with unreadable argument types'))
+                            continue
+                        cargs = [cargs[0]] + comps
+                        ctys = [ctys[0]] + tys
+                    for i, x in enumerate(cargs):
+                        if same_obj(x) and i < len(ctys) and ctys[i].startswith('&mut'):
                             args = {j + 1: (self.init_content(env, y) if same_obj(y) else self.ev_arg(env, y))
-                                    for j, y in enumerate(c.args)}
-                            genv = Env(g, args, {})
-                            for j, y in enumerate(c.args):
+                                    for j, y in enumerate(cargs)}
+                            genv = Env(g, args, ups or {})
+                            for j, y in enumerate(cargs):
                                 ck, cu = self.closure_of(env, y)
                                 if ck is not None:
                                     genv.closures[j + 1] = (ck, cu)
@@ -852,6 +865,14 @@ class ElemEngine:
                             e = self.stored_into(genv, ('arg', i + 1, g.names.get(i + 1)))
                             if e is not None:
                                 add(e)
+                elif any(same_obj(x) and i < len(c.argtys) and c.argtys[i].startswith('&mut') for i, x in enumerate(c.args)):
+                    # a std callee given a `&mut` view of obj: content-preserving ones are listed, the rest is an unknown effect
+                    if s == 'fill' and len(c.args) > 1:
+                        add(self.ev(env, c.args[1]))
+                    elif s in ('resize', 'insert') and len(c.args) > 2:
+                        add(self.ev(env, c.args[2]))
+                    elif s not in _CONTENT_PRESERVING:
+                        add(top('unmodelled &mut use by ' + s))
             # explicit loop items holding &mut views (for row in self { row[col] = ... }, for pair in v.chunks_exact_mut(2) { pair[0] += .. })
             def chain_touches(it):
                 if same_obj(it):
@@ -897,6 +918,37 @@ class ElemEngine:
 
     def effects_on(self, env, argterm):
         return self.stored_into(env, argterm)
+
+
+# std methods taking `&mut` of a buffer that store no new element value into it (views, permutations, removals; writes made
+# through a returned view / iterator are seen at the store through that view)
+_CONTENT_PRESERVING = {'index_mut', 'deref_mut', 'set_len', 'iter_mut', 'swap', 'sort', 'sort_by', 'sort_unstable', 'sort_unstable_by',
+                       'sort_by_key', 'chunks_mut', 'chunks_exact_mut', 'reverse', 'as_mut_slice', 'as_mut', 'split_at_mut', 'last_mut',
+                       'first_mut', 'get_mut', 'rotate_left', 'rotate_right', 'truncate', 'clear', 'reserve', 'pop', 'remove',
+                       'swap_remove', 'drain', 'retain', 'dedup', 'into_iter', 'next', 'borrow_mut', 'split_first_mut', 'split_last_mut',
+                       'push', 'extend', 'extend_from_slice', 'copy_from_slice', 'shrink_to_fit', 'windows', 'len', 'get_unchecked_mut',
+                       'as_mut_ptr', 'select_nth_unstable_by', 'iter', 'rchunks_mut', 'split_mut'}
+
+
+def _split_tuple_ty(t):
+    """component types of a tuple type string `(A, B<C, D>, &mut [f64])`"""
+    t = t.strip()
+    if not (t.startswith('(') and t.endswith(')')):
+        return []
+    out, depth, cur = [], 0, ''
+    for ch in t[1:-1]:
+        if ch in '<([':
+            depth += 1
+        elif ch in '>)]':
+            depth -= 1
+        if ch == ',' and depth == 0:
+            out.append(cur.strip())
+            cur = ''
+        else:
+            cur += ch
+    if cur.strip():
+        out.append(cur.strip())
+    return out
 
 
 def _mentions_uninit(e):
